@@ -447,6 +447,7 @@ VARIANTS = [
     brk('B-extand-does-not-grow', ['C08', 'C11'], 'R-bounded-write', (J, "        with open(self.__fileName, 'ab') as f:\n            f.write(b'\\0' * bytesToAdd)\n", "        with open(self.__fileName, 'ab') as f:\n            pass\n")),
     brk('B-extand-wrong-amount', ['C08', 'C11'], 'R-bounded-write', (J, "                self.__extand(newSize - currSize)", "                self.__extand(newSize - offset)")),
     brk('B-envelope-not-wrapped', ['C13'], 'R-codec-inverse', (T, "        if self.sendRandKey:\n            message = (self.sendRandKey, message)\n", "")),
+    brk('B-second-layout-dependent-op', ['C15'], 'R-deterministic-ops', (B, "    @replicated\n    def pop(self):\n        \"\"\"\n        Remove and return an arbitrary set element.", "    @replicated\n    def takeAny(self):\n        return self.__data.pop()\n\n    @replicated\n    def pop(self):\n        \"\"\"\n        Remove and return an arbitrary set element.")),
     brk('B-add-member-guard-and', ['C10'], 'R-removed-excluded', (S, "if newNode == self.__selfNode or newNode in self.__otherNodes:", "if newNode == self.__selfNode and newNode in self.__otherNodes:")),
     brk('B-fork-parent-forgets-child', ['C09'], 'R-serializer-idle', (SER, "            if pid != 0:\n                self.__pid = pid\n                return", "            if pid != 0:\n                return")),
     brk('B-apply-drops-kwargs', ['C11'], 'R-cmd-shapes', (S, "            funcID, args, newKwArgs = command\n            kwargs.update(newKwArgs)\n", "            funcID, args, newKwArgs = command\n")),
